@@ -94,6 +94,38 @@ fn main() {
                 "guard-histories" => replay_text(&checks::c02::Guards, &text),
                 "multi-borrow" => replay_text(&checks::c02::Multi, &text),
                 "holding-histories" => replay_text(&checks::c02::Holding, &text),
+                "condition-programs" => replay_text(&checks::c10::CondPrograms, &text),
+                "bounded-loops" => replay_text(&checks::c10::BoundedLoops, &text),
+                "random-chance" => replay_text(&checks::c10::Chance, &text),
+                "log-content" => replay_text(&checks::c15::LogContent, &text),
+                "export-faults" => replay_text(&checks::c15::ExportFaults, &text),
+                "dev-full" => replay_text(&checks::c15::DevFull, &text),
+                "config-export-trees" => replay_text(&checks::c15::ConfigExport, &text),
+                "config-export-templates" => replay_text(&checks::c15::TemplateExport, &text),
+                "seq-vs-par" => replay_text(&checks::c08::SeqVsPar { prop: "C08", name: "seq-vs-par" }, &text),
+                "seq-vs-par-c05" => replay_text(&checks::c08::SeqVsPar { prop: "C05", name: "seq-vs-par-c05" }, &text),
+                "seq-vs-par-c06" => replay_text(&checks::c08::SeqVsPar { prop: "C06", name: "seq-vs-par-c06" }, &text),
+                "generators" => replay_text(&checks::c08::Generators, &text),
+                "evaluator-identifiers" => replay_text(&checks::tworld::EvalIds, &text),
+                "individual-histories" => replay_text(&checks::indiv::IndividualHistories, &text),
+                "prepared-reactions" => replay_text(&checks::prepared::Reactions, &text),
+                "par-experiment" => {
+                    let _quiet = par::StdoutSilencer::new();
+                    replay_text(&checks::experiment::Experiment { prop: if file.property == "C15" { "C15" } else { "C08" } }, &text)
+                }
+                w if w.starts_with("templates-") => {
+                    let prop: &'static str = match file.property.as_str() {
+                        "C05" => "C05",
+                        "C06" => "C06",
+                        "C07" => "C07",
+                        "C16" => "C16",
+                        "C18" => "C18",
+                        "C19" => "C19",
+                        "C20" => "C20",
+                        _ => "C16",
+                    };
+                    replay_text(&checks::tworld::TemplateWorld { prop, world_name: "templates", kinds: vec![], penalty: 0.0, faults: checks::tworld::FaultMix::None, max_iters: (1, 1), evaluations_term: false, log: false, key_steps: &[] }, &text)
+                }
                 other => {
                     eprintln!("harness error: unknown world {other}");
                     std::process::exit(2);
